@@ -97,8 +97,13 @@ def collapse(toks):
     out = []
     attrs = {}
     i = 0
+    sq = 0  # inside [ ] a '+' is the arithmetic operator of an extent expression, never an attribute
     while i < len(toks):
-        if toks[i] == "+" and i + 1 < len(toks):
+        if toks[i] == "[":
+            sq += 1
+        elif toks[i] == "]" and sq:
+            sq -= 1
+        if toks[i] == "+" and i + 1 < len(toks) and not sq:
             name = toks[i + 1]
             j = i + 2
             if j < len(toks) and toks[j] == "(":
